@@ -1,8 +1,8 @@
 (* FmtMACHO/Properties.v — property theorems of the format module fmtmacho (Apple code signatures in thin Mach-O images).
    Statements only; each is closed by a lemma of FmtMACHO/Proofs.v or FmtMACHO/ProofsM.v.  The property served is named in the
    comment above each theorem; checks/fmtmacho.py ASPECT_THEOREMS lists the same names. *)
-From Relic Require Import Base.Prelude Base.Enc Generated.FmtMACHO_gen FmtMACHO.Model FmtMACHO.ModelM.
-From Relic Require FmtMACHO.Proofs FmtMACHO.ProofsCD FmtMACHO.ProofsS FmtMACHO.ProofsM.
+From Relic Require Import Base.Prelude Base.Enc FmtMACHO.VpLang Generated.FmtMACHO_gen FmtMACHO.Model FmtMACHO.ModelM.
+From Relic Require FmtMACHO.Proofs FmtMACHO.ProofsCD FmtMACHO.ProofsS FmtMACHO.ProofsM FmtMACHO.ProofsVP.
 From Relic Require C09.Model.
 
 (* ====================================================================================================== superblob *)
@@ -39,6 +39,20 @@ Proof. exact FmtMACHO.Proofs.cs_verify_no_panic. Qed.
 Theorem macho_verify_pages_no_panic : forall H cms_verify blob vp s file p, all_bytes blob = true ->
   cs_verify H cms_verify blob vp = Ok s -> verify_pages H s file <> Panic p.
 Proof. exact FmtMACHO.Proofs.verify_then_pages_no_panic. Qed.
+(* C11: VerifyPages is not hand-modelled: vp_prog (Generated/FmtMACHO_gen.v) is the statement-by-statement translation of its body, run by the
+   interpreter of FmtMACHO/VpLang.v (Go's int64 wrap-around, make / reslice bounds, ReadFull, hash state).  For EVERY page size byte, EVERY 64 bit
+   code size (CodeLimit64 is read from an untrusted uint64: negative values, -1, MinInt64 included), EVERY list of code slots (none, too few, too
+   many) and EVERY reader content (the Mach-O section reader, the disk image reader) no `page[:remaining]`, no `make([]byte, pageSize)` of the
+   program is out of range *)
+Theorem macho_vp_no_panic : forall H c rd p, 0 <= i_log2 c -> 1048576 <= i_alloc_limit c -> vp_exec H c vp_prog rd <> Panic p.
+Proof. exact FmtMACHO.ProofsVP.vp_no_panic. Qed.
+(* C11: ... in particular on whatever csblob.Verify accepted, for any reader (dmg: the section up to the end of the property list) *)
+Theorem macho_verify_pages_rd_no_panic : forall H cms_verify blob vp s n rd p, all_bytes blob = true -> 0 <= n ->
+  cs_verify H cms_verify blob vp = Ok s -> verify_pages_rd H s n rd <> Panic p.
+Proof. exact FmtMACHO.Proofs.verify_then_pages_rd_no_panic. Qed.
+(* C11 C02 (the tie): the generated program equals a closed function of the header values for all inputs; every theorem below is about vp_prog *)
+Theorem macho_vp_prog_is_fun : forall H c rd, 0 <= i_log2 c -> 1048576 <= i_alloc_limit c -> vp_exec H c vp_prog rd = FmtMACHO.ProofsVP.vp_fun H c rd.
+Proof. exact FmtMACHO.ProofsVP.vp_exec_eq. Qed.
 
 Theorem macho_scan_no_panic : forall f p, scan_file f <> Panic p.
 Proof. exact FmtMACHO.ProofsM.scan_no_panic. Qed.
@@ -100,11 +114,54 @@ Theorem macho_two_dirs_bound : forall H cms_verify blob vp s d0 rest attr pl, cs
 Proof. exact FmtMACHO.ProofsS.two_dirs_bound. Qed.
 (* VerifyPages: every code slot of the best directory is the digest of the corresponding page (unit C09's chunks) of the first CodeSize() bytes *)
 Theorem macho_verify_pages_sound : forall H s file d, verify_pages H s file = Ok tt -> best_dir (sg_dirs s) None = Some d ->
-  vp_single_page (h_pagesize (d_hdr d)) = false -> 0 <= h_pagesize (d_hdr d) ->
+  h_pagesize (d_hdr d) <> 0 -> 0 <= h_pagesize (d_hdr d) ->
   let ps := 2 ^ h_pagesize (d_hdr d) in
   h_pagesize (d_hdr d) <= 20 /\
-  Forall2 (fun e pg => obytes e = H (d_hash d) pg) (d_codes d) (firstn (length (d_codes d)) (C09.Model.chunks ps (ztake (code_size s) file))).
+  Forall2 (fun e pg => obytes e = H (d_hash d) pg) (d_codes d) (firstn (length (d_codes d)) (C09.Model.chunks ps (ztake (mm_s64 (code_size s)) file))).
 Proof. exact FmtMACHO.ProofsS.verify_pages_sound. Qed.
+(* C02: EXACTLY when VerifyPages accepts, for all header values, slot lists and reader contents: page size 0 -> one slot, the digest of the whole
+   reader content, whose length is the code size; page size 1..20 -> the reader holds CodeSize > 0 bytes and the slots are the digests of ALL pages (unit
+   C09's chunks) of exactly the first CodeSize bytes — no slot too few (relic 086958a), none too many — or CodeSize <= 0 and there is no slot *)
+Theorem macho_verify_pages_accepts_iff : forall H c rd, 0 <= i_log2 c -> 1048576 <= i_alloc_limit c ->
+  (vp_exec H c vp_prog rd = Ok tt <-> FmtMACHO.ProofsVP.vp_accepts H c rd).
+Proof. exact FmtMACHO.ProofsVP.vp_accepts_iff. Qed.
+(* C02 C05: acceptance IS the specification (0 <= CodeSize <= |region|, slots = digests of the C09 chunks of exactly the first CodeSize bytes) for EVERY
+   paged directory: no slot too few (relic 086958a), no code size with the sign bit set (relic bd61613) *)
+Theorem macho_verify_pages_accepts_spec : forall H c rd, 1 <= i_log2 c <= 20 -> 1048576 <= i_alloc_limit c -> i_none c = false ->
+  -9223372036854775808 <= i_code_size c < 9223372036854775808 ->
+  (vp_exec H c vp_prog rd = Ok tt <-> FmtMACHO.ProofsVP.spec_pages_ok H (i_hfun c) (i_log2 c) (i_code_size c) (i_hashes c) rd).
+Proof. exact FmtMACHO.ProofsVP.vp_accepts_spec. Qed.
+(* C01 C05: every directory the specification describes is accepted (page sizes up to 2^20; a single-slot directory covers the whole region) *)
+Theorem macho_spec_pages_accepted : forall H c rd, 0 <= i_log2 c <= 20 -> 1048576 <= i_alloc_limit c -> i_none c = false ->
+  -9223372036854775808 <= i_code_size c < 9223372036854775808 -> (i_log2 c = 0 -> i_code_size c = zlen rd) ->
+  FmtMACHO.ProofsVP.spec_pages_ok H (i_hfun c) (i_log2 c) (i_code_size c) (i_hashes c) rd -> vp_exec H c vp_prog rd = Ok tt.
+Proof. exact FmtMACHO.ProofsVP.spec_implies_accepts. Qed.
+(* C02 C05: CodeSize() (generated from the whole function): the 64 bit limit unless it is zero — as the SIGNED number Go reads — else the 32 bit one *)
+Theorem macho_code_size_spec : forall none l64 l32, cs_code_size_of none l64 l32 = if none then 0 else if l64 =? 0 then l32 else l64.
+Proof. exact FmtMACHO.ProofsVP.code_size_of_spec. Qed.
+(* C02 regression (relic 086958a; before: finding macho:code-slots-do-not-cover-limit): fewer slots than pages are refused whatever the uncovered bytes are;
+   a limit beyond the reader with every existing page covered is refused *)
+Theorem macho_few_slots_rejected :
+  vp_exec FmtMACHO.ProofsVP.wH (FmtMACHO.ProofsVP.w_in 1 4 [FmtMACHO.ProofsVP.wH 5 [1; 2]]) vp_prog [1; 2; 3; 4] = Err 10 /\
+  vp_exec FmtMACHO.ProofsVP.wH (FmtMACHO.ProofsVP.w_in 1 4 [FmtMACHO.ProofsVP.wH 5 [1; 2]]) vp_prog [1; 2; 9; 9] = Err 10 /\
+  ~ FmtMACHO.ProofsVP.spec_pages_ok FmtMACHO.ProofsVP.wH 5 1 4 [FmtMACHO.ProofsVP.wH 5 [1; 2]] [1; 2; 3; 4] /\
+  vp_exec FmtMACHO.ProofsVP.wH (FmtMACHO.ProofsVP.w_in 1 4 [FmtMACHO.ProofsVP.wH 5 [1; 2]; FmtMACHO.ProofsVP.wH 5 [3; 4]]) vp_prog [1; 2; 3; 4] = Ok tt /\
+  vp_exec FmtMACHO.ProofsVP.wH (FmtMACHO.ProofsVP.w_in 1 4 [FmtMACHO.ProofsVP.wH 5 [1; 2]; FmtMACHO.ProofsVP.wH 5 [3; 4]]) vp_prog [1; 2; 9; 9] = Err 6 /\
+  vp_exec FmtMACHO.ProofsVP.wH (FmtMACHO.ProofsVP.w_in 12 9223372036854775807 [FmtMACHO.ProofsVP.wH 5 [1; 2; 3]]) vp_prog [1; 2; 3] = Err 1 /\
+  vp_exec FmtMACHO.ProofsVP.wH (FmtMACHO.ProofsVP.w_in 12 5 []) vp_prog [1; 2; 3; 4; 5] = Err 10.
+Proof. exact FmtMACHO.ProofsVP.few_slots_rejected. Qed.
+(* C02 C11 regression (relic bd61613; before: finding macho:negative-limit-without-slots-accepted and the crash class of seeded change C11-r3): a code limit with
+   the sign bit set (-1, MinInt64, an unwrapped uint64) is an ordinary error for no slot, one slot, paged and single-page directories *)
+Theorem macho_negative_limit_rejected :
+  vp_exec FmtMACHO.ProofsVP.wH (FmtMACHO.ProofsVP.w_in 12 (-1) []) vp_prog [1; 2; 3] = Err 10 /\
+  vp_exec FmtMACHO.ProofsVP.wH (FmtMACHO.ProofsVP.w_in 12 (-1) []) vp_prog [7; 7; 7; 7] = Err 10 /\
+  ~ FmtMACHO.ProofsVP.spec_pages_ok FmtMACHO.ProofsVP.wH 5 12 (-1) [] [1; 2; 3] /\
+  vp_exec FmtMACHO.ProofsVP.wH (FmtMACHO.ProofsVP.w_in 12 (-1) [FmtMACHO.ProofsVP.wH 5 [1; 2; 3]]) vp_prog [1; 2; 3] = Err 10 /\
+  vp_exec FmtMACHO.ProofsVP.wH (FmtMACHO.ProofsVP.w_in 12 (-9223372036854775808) [FmtMACHO.ProofsVP.wH 5 [1; 2; 3]]) vp_prog [1; 2; 3] = Err 10 /\
+  vp_exec FmtMACHO.ProofsVP.wH (FmtMACHO.ProofsVP.w_in 12 (9223372036854775808 + 5) [FmtMACHO.ProofsVP.wH 5 [1; 2; 3]]) vp_prog [1; 2; 3] = Err 10 /\
+  vp_exec FmtMACHO.ProofsVP.wH (FmtMACHO.ProofsVP.w_in 0 (-1) [FmtMACHO.ProofsVP.wH 5 [1; 2; 3]]) vp_prog [1; 2; 3] = Err 10 /\
+  vp_exec FmtMACHO.ProofsVP.wH (FmtMACHO.ProofsVP.w_in 12 0 []) vp_prog [1; 2; 3] = Ok tt.
+Proof. exact FmtMACHO.ProofsVP.negative_limit_rejected. Qed.
 (* witness (known finding macho:alternate-directory-unbound): without the plist attribute an alternate directory grafted into the signature makes
    MODIFIED code verify; with the plist it is refused (count) *)
 Theorem macho_alternate_unbound_refuted :
@@ -199,3 +256,13 @@ Proof. exact FmtMACHO.ProofsM.trailing_not_hashed. Qed.
 Example super_small : marshal_super 4208856256 [new_super_item 4208882033 [1; 2]] =
   [250; 222; 12; 192; 0; 0; 0; 30; 0; 0; 0; 1; 0; 0; 0; 5; 0; 0; 0; 20; 250; 222; 113; 113; 0; 0; 0; 10; 1; 2].
 Proof. reflexivity. Qed.
+(* the hypotheses of the VerifyPages theorems are satisfiable: a two page directory over four bytes of code, page size 2^1, a 1 MiB allocation permitted;
+   a directory with a negative code limit and one slot is inside the domain of macho_vp_no_panic and yields error class 10, not a panic *)
+Example vp_domain_inhabited :
+  let c := FmtMACHO.ProofsVP.w_in 1 4 [FmtMACHO.ProofsVP.wH 5 [1; 2]; FmtMACHO.ProofsVP.wH 5 [3; 4]] in
+  0 <= i_log2 c /\ 1048576 <= i_alloc_limit c /\ -9223372036854775808 <= i_code_size c < 9223372036854775808 /\
+  FmtMACHO.ProofsVP.spec_pages_ok FmtMACHO.ProofsVP.wH 5 1 4 (i_hashes c) [1; 2; 3; 4] /\ vp_exec FmtMACHO.ProofsVP.wH c vp_prog [1; 2; 3; 4] = Ok tt.
+Proof. cbv zeta. repeat split; try (vm_compute; reflexivity); try (vm_compute; congruence); cbn; lia. Qed.
+Example vp_negative_limit_is_error :
+  vp_exec FmtMACHO.ProofsVP.wH (FmtMACHO.ProofsVP.w_in 12 (-8192) [FmtMACHO.ProofsVP.wH 5 [1]; FmtMACHO.ProofsVP.wH 5 [2]]) vp_prog [1; 2] = Err 10.
+Proof. vm_compute. reflexivity. Qed.
